@@ -7,6 +7,7 @@ from ..common import Inconclusive
 # (name, source, args, slices that must appear verbatim, slices that must appear formatted)
 IGNORE_BATTERY = [
     ("stmt-semi", "-- stylua: ignore\nlocal x   =  1;\nlocal y   =  2\n", [], ["local x   =  1;\n"], ["local y = 2\n"]),
+    ("stmt-required-semi", "-- stylua: ignore\nlocal x   =   1   ;   -- hi\n(foo)()\nlocal y   =  2\n", [], ["local x   =   1   ;   -- hi\n(foo)()\n"], ["local y = 2\n"]),
     ("stmt-semi-comment", "-- stylua: ignore\nlocal x   =  1; -- c\nlocal y   =  2\n", [], ["local x   =  1; -- c\n"], ["local y = 2\n"]),
     ("last-semi", "local y   =  2\n-- stylua: ignore\nreturn   y;\n", [], ["return   y;\n"], ["local y = 2\n"]),
     ("region-semi", "local a   = 1\n-- stylua: ignore start\nlocal b   =  2; -- c\nlocal c   =  3;\n-- stylua: ignore end\nlocal d   = 4\n", [],
@@ -55,6 +56,12 @@ RANGE_BATTERY = [
     ("range-required-semi", "local a   =  1\nlocal b   =   2\n(f)()\n", ["--range-start", "15", "--range-end", "30"],
      ["local a   =  1\n"], [], "local a   =  1\nlocal b = 2;\n(f)()\n"),
     ("range-second-exact", "local x   =  1;\nlocal y   =  2;\n", ["--range-start", "16"], [], [], "local x   =  1;\nlocal y = 2\n"),
+    ("range-required-semi-untouched", "local x   =   1   ;   -- hi\n(foo)()\nlocal   y  = 2\n", ["--range-start", "36"], ["local x   =   1   ;   -- hi\n(foo)()\n"], ["local y = 2\n"]),
+    ("range-required-semi-untouched-nested", "function f()\n\tt.a   =   g()   ;   -- keep\n\t(h)()\n\tlocal   z = 1\nend\n", ["--range-start", "50"],
+     ["\tt.a   =   g()   ;   -- keep\n\t(h)()\n"], ["\tlocal z = 1\n"]),
+    ("range-trailing-blank-lines", "local   a = 1\nlocal   b = 2\n\n\n\n", ["--range-start", "0", "--range-end", "13"], [], [], "local a = 1\nlocal   b = 2\n\n\n\n"),
+    ("range-end-only-trailing-blank-lines", "local   a = 1\nlocal   b = 2\n\n\n\n", ["--range-end", "13"], [], [], "local a = 1\nlocal   b = 2\n\n\n\n"),
+    ("range-empty-trailing-white-space", "local   a = 1\n  \t ", ["--range-start", "0", "--range-end", "0"], [], [], "local   a = 1\n  \t "),
     ("range-open", "local x   =  1\nlocal y   =  2\n", [], [], ["local x = 1\n", "local y = 2\n"]),
     ("range-inverted", "local   a   =   1\nlocal   b   =   2 ;\nlocal   c   =   3\n", ["--range-start", "37", "--range-end", "18"], [], [],
      "local   a   =   1\nlocal   b   =   2 ;\nlocal   c   =   3\n"),
@@ -91,7 +98,7 @@ def run_battery(battery):
     return res
 
 
-SEMI = {"stmt-semi", "stmt-semi-comment", "last-semi", "region-semi", "nested-semi", "call-semi", "range-second", "range-first", "range-last",
+SEMI = {"stmt-required-semi", "range-required-semi-untouched", "range-required-semi-untouched-nested", "stmt-semi", "stmt-semi-comment", "last-semi", "region-semi", "nested-semi", "call-semi", "range-second", "range-first", "range-last",
         "range-both-semis", "range-ignore-inside", "range-required-semi", "range-second-exact"}
 TOGGLE = {"region-starts-on-last", "region-ends-on-last", "region-starts-on-last-break", "region", "no-leak", "end-directive", "second-directive-wins", "eof-comment", "plain"}
 
